@@ -917,59 +917,179 @@ func (c *Ctx) c10EscapeTable(rule string) ([]c10Pair, bool) {
 	if fd.Type.Params != nil && len(fd.Type.Params.List) == 1 && len(fd.Type.Params.List[0].Names) == 1 {
 		param = info.Defs[fd.Type.Params.List[0].Names[0]]
 	}
-	var rng *ast.RangeStmt
-	for _, s := range fd.Body.List {
-		if r, ok := s.(*ast.RangeStmt); ok {
-			rng = r
-		} else {
-			c.Undecided(rule, "CommandLine:shape", s.Pos(), "statement outside the element loop: %s (recognised form: for i := range s { s[i] = strings.Replace(s[i], c, esc, -1) … })", c.src(s))
-			return nil, false
-		}
+	// Recognised shape: [if len(s) == 0 { return }] followed by ONE loop over every element:
+	//   for i := range s {…}   |   for i, v := range s {…}   |   for i := 0; i < len(s); i++ {…}
+	// The element is s[i]; with a range value variable v (or a leading `v := s[i]`) the replacements may be
+	// applied to v, in which case the body must end with the write-back `s[i] = v`.
+	isParam := func(x ast.Expr) bool {
+		id, ok := unparen(x).(*ast.Ident)
+		return ok && param != nil && info.ObjectOf(id) == param
 	}
-	if rng == nil || param == nil {
+	lenOfParam := func(x ast.Expr) bool {
+		call, ok := isBuiltinCall(info, x, "len")
+		return ok && len(call.Args) == 1 && isParam(call.Args[0])
+	}
+	isZero := func(p func(int64) bool) bool {
+		return samePredOnRange(p, func(v int64) bool { return v == 0 }, 0, 4)
+	}
+	var loopPos token.Pos
+	var loopBody *ast.BlockStmt
+	var keyObj, aliasObj types.Object
+	allElems, whyNot := false, ""
+	for _, s := range fd.Body.List {
+		switch v := s.(type) {
+		case *ast.IfStmt:
+			// `if len(s) == 0 { return }` before the loop changes nothing (the loop would not run)
+			if loopBody == nil && v.Init == nil && v.Else == nil && len(v.Body.List) == 1 {
+				if rs, ok := v.Body.List[0].(*ast.ReturnStmt); ok && len(rs.Results) == 0 {
+					if x, op, k, ok := cmpNorm(info, v.Cond); ok && lenOfParam(x) && isZero(intPred(op, k)) {
+						continue
+					}
+				}
+			}
+		case *ast.RangeStmt:
+			if loopBody == nil && v.Tok == token.DEFINE {
+				loopBody, loopPos = v.Body, v.Pos()
+				if id, ok := v.Key.(*ast.Ident); ok && id.Name != "_" {
+					keyObj = info.ObjectOf(id)
+				}
+				if id, ok := v.Value.(*ast.Ident); ok && id.Name != "_" {
+					aliasObj = info.ObjectOf(id)
+				}
+				allElems = isParam(v.X)
+				whyNot = "ranges over " + c.src(v.X)
+				continue
+			}
+		case *ast.ForStmt:
+			if loopBody == nil && v.Init != nil && v.Cond != nil && v.Post != nil {
+				init, ok1 := v.Init.(*ast.AssignStmt)
+				cond, ok2 := unparen(v.Cond).(*ast.BinaryExpr)
+				if ok1 && ok2 && init.Tok == token.DEFINE && len(init.Lhs) == 1 && len(init.Rhs) == 1 {
+					id := init.Lhs[0].(*ast.Ident)
+					ko := info.ObjectOf(id)
+					isKey := func(x ast.Expr) bool {
+						kid, ok := unparen(x).(*ast.Ident)
+						return ok && info.ObjectOf(kid) == ko
+					}
+					// i < len(s)  |  len(s) > i
+					condOK := (cond.Op == token.LSS && isKey(cond.X) && lenOfParam(cond.Y)) || (cond.Op == token.GTR && isKey(cond.Y) && lenOfParam(cond.X))
+					// i++  |  i += 1
+					postOK := false
+					switch ps := v.Post.(type) {
+					case *ast.IncDecStmt:
+						postOK = ps.Tok == token.INC && isKey(ps.X)
+					case *ast.AssignStmt:
+						if ps.Tok == token.ADD_ASSIGN && len(ps.Lhs) == 1 && len(ps.Rhs) == 1 && isKey(ps.Lhs[0]) {
+							one, ok := constInt(info, ps.Rhs[0])
+							postOK = ok && one == 1
+						}
+					}
+					if start, ok := constInt(info, init.Rhs[0]); ok && condOK && postOK {
+						loopBody, loopPos, keyObj = v.Body, v.Pos(), ko
+						allElems = start == 0
+						whyNot = "starts at index " + c.src(init.Rhs[0])
+						// the index must not be changed inside the body
+						ast.Inspect(v.Body, func(n ast.Node) bool {
+							switch st := n.(type) {
+							case *ast.AssignStmt:
+								for _, l := range st.Lhs {
+									if isKey(l) {
+										allElems, whyNot = false, "changes its index inside the loop"
+									}
+								}
+							case *ast.IncDecStmt:
+								if isKey(st.X) {
+									allElems, whyNot = false, "changes its index inside the loop"
+								}
+							}
+							return true
+						})
+						continue
+					}
+				}
+			}
+		}
+		c.Undecided(rule, "CommandLine:shape", s.Pos(), "statement outside the element loop: %s (recognised form: for i := range s { s[i] = strings.Replace(s[i], c, esc, -1) … })", c.src(s))
+		return nil, false
+	}
+	if loopBody == nil || param == nil {
 		c.Undecided(rule, "CommandLine:shape", fd.Pos(), "no `for i := range s` over the parameter")
 		return nil, false
 	}
-	if id, ok := unparen(rng.X).(*ast.Ident); !ok || info.ObjectOf(id) != param {
-		c.Viol(rule, "CommandLine:all-elements", rng.Pos(), "escape.CommandLine ranges over %s, not over its whole parameter: some elements are joined unescaped", c.src(rng.X))
+	if !allElems {
+		c.Viol(rule, "CommandLine:all-elements", loopPos, "escape.CommandLine %s, not over its whole parameter: some elements are joined unescaped", whyNot)
 		return nil, false
 	}
-	c.OK(rule, "CommandLine:all-elements", rng.Pos(), "CommandLine ranges over every element of its parameter")
-	var keyObj types.Object
-	if id, ok := rng.Key.(*ast.Ident); ok {
-		keyObj = info.ObjectOf(id)
-	}
-	elem := func(x ast.Expr) bool {
+	c.OK(rule, "CommandLine:all-elements", loopPos, "CommandLine ranges over every element of its parameter")
+	slot := func(x ast.Expr) bool { // s[i]
 		ix, ok := unparen(x).(*ast.IndexExpr)
 		if !ok {
 			return false
 		}
-		a, ok1 := unparen(ix.X).(*ast.Ident)
 		b, ok2 := unparen(ix.Index).(*ast.Ident)
-		return ok1 && ok2 && info.ObjectOf(a) == param && info.ObjectOf(b) == keyObj && keyObj != nil
+		return isParam(ix.X) && ok2 && info.ObjectOf(b) == keyObj && keyObj != nil
+	}
+	isAlias := func(x ast.Expr) bool {
+		id, ok := unparen(x).(*ast.Ident)
+		return ok && aliasObj != nil && info.ObjectOf(id) == aliasObj
+	}
+	body := loopBody.List
+	// leading `v := s[i]`
+	if aliasObj == nil && len(body) > 0 {
+		if as, ok := body[0].(*ast.AssignStmt); ok && as.Tok == token.DEFINE && len(as.Lhs) == 1 && len(as.Rhs) == 1 && slot(as.Rhs[0]) {
+			if id, ok := as.Lhs[0].(*ast.Ident); ok {
+				aliasObj = info.ObjectOf(id)
+				body = body[1:]
+			}
+		}
+	}
+	// which of the two carries the replacements? the alias, when the body ends with the write-back s[i] = v
+	viaAlias := false
+	if aliasObj != nil && len(body) > 0 {
+		if as, ok := body[len(body)-1].(*ast.AssignStmt); ok && as.Tok == token.ASSIGN && len(as.Lhs) == 1 && len(as.Rhs) == 1 && slot(as.Lhs[0]) && isAlias(as.Rhs[0]) {
+			viaAlias = true
+			body = body[:len(body)-1]
+		}
+	}
+	elem := func(x ast.Expr) bool { // the value being rewritten
+		if viaAlias {
+			return isAlias(x)
+		}
+		return slot(x)
+	}
+	elemRead := func(x ast.Expr) bool { // reads before any rewrite: both spellings denote the element
+		return slot(x) || isAlias(x)
 	}
 	var pairs []c10Pair
-	for _, s := range rng.Body.List {
+	for _, s := range body {
 		// `if s[i] == "" { s[i] = <const>; continue }` — the written form of an empty element
 		if is, ok := s.(*ast.IfStmt); ok && is.Init == nil && is.Else == nil && len(is.Body.List) == 2 {
 			isEmptyTest := false
 			if b, ok := unparen(is.Cond).(*ast.BinaryExpr); ok && b.Op == token.EQL {
-				if v, ok := constString(info, b.Y); ok && v == "" && elem(b.X) {
-					isEmptyTest = true
-				}
-				if call, ok := isBuiltinCall(info, b.X, "len"); ok && len(call.Args) == 1 && elem(call.Args[0]) {
-					if v, ok := constInt(info, b.Y); ok && v == 0 {
+				for _, pr := range [][2]ast.Expr{{b.X, b.Y}, {b.Y, b.X}} {
+					if v, ok := constString(info, pr[1]); ok && v == "" && elemRead(pr[0]) {
 						isEmptyTest = true
 					}
 				}
 			}
+			if x, op, k, ok := cmpNorm(info, is.Cond); ok {
+				if call, ok := isBuiltinCall(info, x, "len"); ok && len(call.Args) == 1 && elemRead(call.Args[0]) && isZero(intPred(op, k)) {
+					isEmptyTest = true
+				}
+			}
 			as, ok1 := is.Body.List[0].(*ast.AssignStmt)
 			br, ok2 := is.Body.List[1].(*ast.BranchStmt)
-			if isEmptyTest && ok1 && ok2 && br.Tok == token.CONTINUE && as.Tok == token.ASSIGN && len(as.Lhs) == 1 && len(as.Rhs) == 1 && elem(as.Lhs[0]) {
+			if isEmptyTest && (len(pairs) == 0 || !viaAlias) && ok1 && ok2 && br.Tok == token.CONTINUE && br.Label == nil && as.Tok == token.ASSIGN && len(as.Lhs) == 1 && len(as.Rhs) == 1 && slot(as.Lhs[0]) {
 				if v, ok := constString(info, as.Rhs[0]); ok {
 					c10EmptyForm, c10EmptyPos = v, as.Pos()
 					continue
 				}
+			}
+		}
+		// a constant declared inside the loop
+		if ds, ok := s.(*ast.DeclStmt); ok {
+			if gd, ok := ds.Decl.(*ast.GenDecl); ok && gd.Tok == token.CONST {
+				continue
 			}
 		}
 		as, ok := s.(*ast.AssignStmt)
@@ -1514,7 +1634,8 @@ func (c *Ctx) c10Callers() {
 					continue
 				}
 				n++
-				inner, ok := unparen(call.Args[0]).(*ast.CallExpr)
+				// the argument, or the single definition of the local that is passed (`args := flag.Args()`)
+				inner, ok := localDefs(info, fd.Body).resolve1(info, call.Args[0]).(*ast.CallExpr)
 				good := ok && callIs(info, inner, "flag", "", "Args") && len(inner.Args) == 0
 				c.Check(good, "R10c", "main:execute-argv", call.Pos(), "--execute hands all of flag.Args() to argvToCmdLineStr (got %s)", c.src(call.Args[0]))
 			}
@@ -1577,12 +1698,22 @@ func (c *Ctx) c10ExprFirst(E map[rune]string) {
 				stmtIdx = i
 			}
 		}
-		if is, ok := st.(*ast.IfStmt); ok && exprIdx >= 0 && stmtIdx < 0 && is.Else == nil && len(is.Body.List) == 1 {
-			if rs, ok := is.Body.List[0].(*ast.ReturnStmt); ok && len(rs.Results) == 2 {
-				if id, ok := unparen(rs.Results[1]).(*ast.Ident); ok && id.Name == "nil" {
-					retIdx = i
+		// a success exit (`return <pos>, nil`) anywhere inside a statement that follows the parseExpression call
+		// and precedes the first ParseStatement call
+		if exprIdx >= 0 && stmtIdx < 0 {
+			ast.Inspect(st, func(n ast.Node) bool {
+				if _, ok := n.(*ast.FuncLit); ok {
+					return false
 				}
-			}
+				if rs, ok := n.(*ast.ReturnStmt); ok && len(rs.Results) == 2 {
+					if id, ok := unparen(rs.Results[1]).(*ast.Ident); ok {
+						if _, isNil := info.ObjectOf(id).(*types.Nil); isNil {
+							retIdx = i
+						}
+					}
+				}
+				return true
+			})
 		}
 	}
 	switch {
@@ -1614,33 +1745,20 @@ func (c *Ctx) c10ExprFirst(E map[rune]string) {
 		return constant.Int64Val(constant.ToInt(k))
 	}
 	bare, okB := val("Bareword")
-	// isSymbolAssignable(Bareword) must be true: evaluate its single return expression
+	// isSymbolAssignable(Bareword) must be true: evaluate the function on that constant
+	// (return of a boolean combination of `sym OP constant`, `switch sym { case …: return … }`, `if … { return … }`)
 	accepts := false
-	if okB && len(fdAsg.Body.List) == 1 && fdAsg.Type.Params != nil && len(fdAsg.Type.Params.List) == 1 {
-		if rs, ok := fdAsg.Body.List[0].(*ast.ReturnStmt); ok && len(rs.Results) == 1 {
-			param := info.Defs[fdAsg.Type.Params.List[0].Names[0]]
-			var unk []string
-			accepts = evalBool(rs.Results[0], func(e ast.Expr) (string, bool, bool) {
-				b, ok := unparen(e).(*ast.BinaryExpr)
-				if !ok || (b.Op != token.EQL && b.Op != token.NEQ) {
-					return "", false, false
-				}
-				id, ok1 := unparen(b.X).(*ast.Ident)
-				k, ok2 := constInt(info, b.Y)
-				if !ok1 || !ok2 || info.ObjectOf(id) != param {
-					return "", false, false
-				}
-				name := "ne"
-				if k == bare {
-					name = "eq"
-				}
-				return name, b.Op == token.NEQ, true
-			}, map[string]bool{"eq": true, "ne": false}, &unk)
-			if len(unk) > 0 {
-				c.Undecided("R10d", "assignable:bareword", fdAsg.Pos(), "isSymbolAssignable is not a disjunction of sym == <constant> tests (%v)", unk)
-				return
-			}
+	if okB && fdAsg.Type.Params != nil && len(fdAsg.Type.Params.List) == 1 && len(fdAsg.Type.Params.List[0].Names) == 1 {
+		param := info.Defs[fdAsg.Type.Params.List[0].Names[0]]
+		v, decided := c10EvalSymPred(info, fdAsg.Body.List, param, bare)
+		if !decided {
+			c.Undecided("R10d", "assignable:bareword", fdAsg.Pos(), "isSymbolAssignable is not built from sym == <constant> tests (boolean expression, switch on the parameter, if/return)")
+			return
 		}
+		accepts = v
+	} else {
+		c.Undecided("R10d", "assignable:bareword", fdAsg.Pos(), "isSymbolAssignable does not take one symbol parameter / symbols.Bareword not found")
+		return
 	}
 	if !accepts {
 		c.OK("R10d", "assignable:bareword", fdAsg.Pos(), "isSymbolAssignable rejects symbols.Bareword: `name OP value` never validates as an expression, no obligation")
@@ -1650,16 +1768,40 @@ func (c *Ctx) c10ExprFirst(E map[rune]string) {
 	// the switch of validateExpression that holds the isSymbolAssignable clause
 	var sw *ast.SwitchStmt
 	var asgClause *ast.CaseClause
-	ast.Inspect(fdVal.Body, func(n ast.Node) bool {
-		s, ok := n.(*ast.SwitchStmt)
-		if !ok || s.Tag != nil {
+	walkStack(fdVal.Body, func(n ast.Node, stack []ast.Node) bool {
+		var s *ast.SwitchStmt
+		switch v := n.(type) {
+		case *ast.SwitchStmt:
+			if v.Tag == nil {
+				s = v
+			}
+		case *ast.IfStmt:
+			// the head of an if / else-if chain is read as the equivalent tagless switch
+			isElse := false
+			if len(stack) >= 2 {
+				if parent, ok := stack[len(stack)-2].(*ast.IfStmt); ok && parent.Else == ast.Stmt(v) {
+					isElse = true
+				}
+			}
+			if !isElse && v.Else != nil {
+				s = c09IfChain(v)
+			}
+		}
+		if s == nil {
 			return true
 		}
 		for _, st := range s.Body.List {
 			cc := st.(*ast.CaseClause)
-			for _, call := range calls(cc, false) {
+			for _, call := range calls(&ast.BlockStmt{List: cc.Body}, false) {
 				if callIs(info, call, mx(c10ExprPkg), "", "isSymbolAssignable") {
 					sw, asgClause = s, cc
+				}
+			}
+			for _, x := range cc.List {
+				for _, call := range calls(x, false) {
+					if callIs(info, call, mx(c10ExprPkg), "", "isSymbolAssignable") {
+						sw, asgClause = s, cc
+					}
 				}
 			}
 		}
@@ -1690,6 +1832,42 @@ func (c *Ctx) c10ExprFirst(E map[rune]string) {
 			nodeObj = o
 		}
 	}
+	// condition of a clause for "the operator node has key k, both neighbours exist":
+	// boolean combination of `<node>.key OP constant` and nil tests of other locals (false: the operands exist)
+	var condOf func(x ast.Expr, k int64) (bool, bool)
+	condOf = func(x ast.Expr, k int64) (bool, bool) {
+		x = unparen(x)
+		if _, op, ok := c08NilCmp(info, x); ok {
+			return op == token.NEQ, true
+		}
+		switch v := x.(type) {
+		case *ast.UnaryExpr:
+			if v.Op == token.NOT {
+				b, ok := condOf(v.X, k)
+				return !b, ok
+			}
+		case *ast.BinaryExpr:
+			if v.Op == token.LAND || v.Op == token.LOR {
+				a, ok1 := condOf(v.X, k)
+				b, ok2 := condOf(v.Y, k)
+				if v.Op == token.LAND {
+					return a && b, ok1 && ok2
+				}
+				return a || b, ok1 && ok2
+			}
+			if y, op, kv, ok := cmpNorm(info, v); ok {
+				se, ok := y.(*ast.SelectorExpr)
+				if !ok || !isField(info, se, astNodeT, "key") {
+					return false, false
+				}
+				if id, ok := unparen(se.X).(*ast.Ident); !ok || info.ObjectOf(id) != nodeObj {
+					return false, false
+				}
+				return intPred(op, kv)(k), true
+			}
+		}
+		return false, false
+	}
 	selected := func(k int64) (*ast.CaseClause, bool) {
 		var dflt *ast.CaseClause
 		for _, st := range sw.Body.List {
@@ -1699,23 +1877,11 @@ func (c *Ctx) c10ExprFirst(E map[rune]string) {
 				continue
 			}
 			for _, x := range cc.List {
-				b, ok := unparen(x).(*ast.BinaryExpr)
+				b, ok := condOf(x, k)
 				if !ok {
 					return nil, false
 				}
-				// prev == nil / next == nil: operands exist in `name OP value`
-				if id, ok := unparen(b.Y).(*ast.Ident); ok && id.Name == "nil" && b.Op == token.EQL {
-					continue
-				}
-				se, ok := unparen(b.X).(*ast.SelectorExpr)
-				kv, okK := constInt(info, b.Y)
-				if !ok || !okK || !isField(info, se, astNodeT, "key") {
-					return nil, false
-				}
-				if id, ok := unparen(se.X).(*ast.Ident); !ok || info.ObjectOf(id) != nodeObj {
-					return nil, false
-				}
-				if intPred(b.Op, kv)(k) {
+				if b {
 					return cc, true
 				}
 			}
@@ -1822,10 +1988,9 @@ func (c *Ctx) c10ExprFirst(E map[rune]string) {
 			}
 		}
 		for _, f := range factsOf(guardsAt(info, stack)) {
-			if b, ok := unparen(f.E).(*ast.BinaryExpr); ok && b.Op == token.EQL && f.True {
-				if v, ok := constInt(info, b.Y); ok && isNext(b.X) {
-					second = append(second, rune(v))
-				}
+			// tree.nextChar() == 'K' (either operand order) known true, or != known false
+			if x, op, v, ok := cmpNorm(info, f.E); ok && isNext(x) && ((op == token.EQL && f.True) || (op == token.NEQ && !f.True)) {
+				second = append(second, rune(v))
 			}
 		}
 		_ = secondOpen
@@ -1865,4 +2030,116 @@ func (c *Ctx) c10ExprFirst(E map[rune]string) {
 			c.Info("R10d symbols.%s is never produced by parseExpression with a constant rune pair (no obligation)", n)
 		}
 	}
+}
+
+// c10EvalSymPred evaluates a small predicate function over one integer-constant parameter on the value k:
+// `return <bool expr>`, `switch param { case A, B: return … }`, `if <bool expr> { return … }` in sequence.
+// Leaves of boolean expressions: `param OP constant` (either operand order), true/false. ok=false when the
+// function leaves this fragment.
+func c10EvalSymPred(info *types.Info, list []ast.Stmt, param types.Object, k int64) (val bool, ok bool) {
+	var cond func(x ast.Expr) (bool, bool)
+	cond = func(x ast.Expr) (bool, bool) {
+		x = unparen(x)
+		if b, ok := constBool(info, x); ok {
+			return b, true
+		}
+		switch v := x.(type) {
+		case *ast.UnaryExpr:
+			if v.Op == token.NOT {
+				b, ok := cond(v.X)
+				return !b, ok
+			}
+		case *ast.BinaryExpr:
+			if v.Op == token.LAND || v.Op == token.LOR {
+				a, ok1 := cond(v.X)
+				b, ok2 := cond(v.Y)
+				if v.Op == token.LAND {
+					return a && b, ok1 && ok2
+				}
+				return a || b, ok1 && ok2
+			}
+			if y, op, kv, ok := cmpNorm(info, v); ok {
+				if id, ok := y.(*ast.Ident); ok && info.ObjectOf(id) == param {
+					return intPred(op, kv)(k), true
+				}
+			}
+		}
+		return false, false
+	}
+	// exec returns (value, returned, ok)
+	var exec func(list []ast.Stmt) (bool, bool, bool)
+	exec = func(list []ast.Stmt) (bool, bool, bool) {
+		for _, s := range list {
+			switch v := s.(type) {
+			case *ast.ReturnStmt:
+				if len(v.Results) != 1 {
+					return false, false, false
+				}
+				b, ok := cond(v.Results[0])
+				return b, true, ok
+			case *ast.BlockStmt:
+				if b, ret, ok := exec(v.List); !ok || ret {
+					return b, ret, ok
+				}
+			case *ast.IfStmt:
+				if v.Init != nil {
+					return false, false, false
+				}
+				t, ok := cond(v.Cond)
+				if !ok {
+					return false, false, false
+				}
+				var arm []ast.Stmt
+				if t {
+					arm = v.Body.List
+				} else if v.Else != nil {
+					arm = []ast.Stmt{v.Else}
+				}
+				if b, ret, ok := exec(arm); !ok || ret {
+					return b, ret, ok
+				}
+			case *ast.SwitchStmt:
+				if v.Init != nil || v.Tag == nil {
+					return false, false, false
+				}
+				if id, ok := unparen(v.Tag).(*ast.Ident); !ok || info.ObjectOf(id) != param {
+					return false, false, false
+				}
+				var arm []ast.Stmt
+				matched := false
+				var dflt *ast.CaseClause
+				for _, st := range v.Body.List {
+					cc := st.(*ast.CaseClause)
+					if cc.List == nil {
+						dflt = cc
+					}
+					for _, x := range cc.List {
+						kv, ok := constInt(info, x)
+						if !ok {
+							return false, false, false
+						}
+						if kv == k && !matched {
+							matched, arm = true, cc.Body
+						}
+					}
+				}
+				if !matched && dflt != nil {
+					arm = dflt.Body
+				}
+				for _, st := range arm {
+					if br, ok := st.(*ast.BranchStmt); ok && br.Tok == token.FALLTHROUGH {
+						return false, false, false
+					}
+				}
+				if b, ret, ok := exec(arm); !ok || ret {
+					return b, ret, ok
+				}
+			default:
+				return false, false, false
+			}
+		}
+		return false, false, true
+	}
+	b, ret, ok := exec(list)
+	return b, ok && ret
 }
